@@ -509,6 +509,91 @@ def tie_binary_test_loop(injected):
     return tie
 
 
+# ----------------------------------------------------------------------------- C13 get_expected_rates
+def tie_get_expected_rates(rng, n):
+    """the real `CatalogForecast.get_expected_rates` (list of catalogs, Cartesian region with magnitudes; events inside the
+    region, sometimes one outside or below the first magnitude edge → ValueError inside the pass) against
+    `SrcSM.get_expected_rates`. The opaque pass hands the Lean definition, per catalog, the counts its own
+    `spatial_magnitude_counts()` gives on the forecast's region (or `err`), and the `n_cat` the forecast has after the pass;
+    compared: the rates matrix exactly (flattened), the exception class; a second call returns the cached object"""
+    import numpy
+    from csep.core import regions
+    from csep.core.catalogs import CSEPCatalog
+    from csep.core.forecasts import CatalogForecast
+    from .core import frac
+    drv, exp = Driver(), []
+    for _ in range(max(20, n // 10)):
+        nx, ny, dh = rng.randint(1, 3), rng.randint(1, 2), 1.0
+        origins = [(20.0 + i * dh, 5.0 + j * dh) for i in range(nx) for j in range(ny)]
+        reg = regions.CartesianGrid2D.from_origins(numpy.array(origins), dh=dh)
+        edges = sorted(set(round(rng.uniform(3.0, 6.0), 1) for _ in range(rng.randint(1, 3))))
+        reg.magnitudes = numpy.array(edges)
+        ncats = rng.choice([1, 1, 2, 3, 5])
+        cats, enc = [], []
+        for c in range(ncats):
+            evs = []
+            for k in range(rng.choice([0, 1, 2, 4])):
+                o = rng.choice(origins)
+                lon, lat = o[0] + rng.choice([0.0, 0.3, 0.999]), o[1] + rng.choice([0.0, 0.5])
+                m = rng.choice(edges) + rng.choice([0.0, 0.05, 1.5])
+                r = rng.random()
+                if r < 0.04:
+                    lon = 10.0                       # outside the region
+                elif r < 0.08:
+                    m = edges[0] - 0.5               # below the first magnitude edge
+                evs.append((k + 1, 1000 * k, float(lat), float(lon), 10.0, float(m)))
+            cats.append(CSEPCatalog(data=evs))
+            probe = CSEPCatalog(data=evs, region=reg)
+            try:
+                enc.append(ilist(int(v) for v in probe.spatial_magnitude_counts().ravel()))
+            except ValueError:
+                enc.append("err")
+        fore = CatalogForecast(catalogs=cats, region=reg, name="t")
+
+        def call():
+            er = fore.get_expected_rates()
+            assert fore.get_expected_rates() is er, "second call did not return the cached forecast"
+            return "ok " + flist(float(v) for v in numpy.asarray(er.data).ravel())
+        got = _outcome(call)
+        exp.append((dict(ncats=ncats, enc=enc), got))
+        drv.ask(f"srcsm_get_expected_rates 0 {fore.n_cat if fore.n_cat is not None else 'none'} {';'.join(enc)} "
+                f"{ilist([rng.randint(0, 9) for _ in range(rng.randint(0, 3))])}")
+    out = drv.run()
+    return len(exp), [(c, a[:200], b[:200]) for (c, a), b in zip(exp, out) if a != b]
+
+
+# ----------------------------------------------------------------------------- C10 number_test
+def tie_catalog_number_test(rng, n):
+    """the real `catalog_evaluations.number_test(forecast, obs, verbose=False)` on list forecasts against
+    `SrcSM.catalog_number_test` (the pass hands out the catalogs' event counts; `get_quantiles` on the Lean side is py2lean's
+    generated definition): distribution, observed count, both quantiles (exact), name and status strings"""
+    from csep.core import catalog_evaluations as ce
+    from csep.core.catalogs import CSEPCatalog
+    from csep.core.forecasts import CatalogForecast
+    from .core import frac
+    drv, exp = Driver(), []
+    mk = lambda k: CSEPCatalog(data=[(j + 1, 1000 * j, 1.0, 2.0, 5.0, 4.5) for j in range(k)])
+    for _ in range(max(20, n // 10)):
+        counts = [rng.choice([0, 1, 2, 3, 5, 8]) for _ in range(rng.choice([1, 2, 3, 6, 12]))]
+        nobs = rng.choice(counts + [0, 4, 9])
+        import numpy
+        from csep.core import regions
+        reg = regions.CartesianGrid2D.from_origins(numpy.array([(2.0, 1.0)]), dh=1.0)
+        reg.magnitudes = numpy.array([4.0, 5.0])
+        fore = CatalogForecast(catalogs=[mk(k) for k in counts], name="t", region=reg)
+        try:
+            r = ce.number_test(fore, mk(nobs), verbose=False)
+        except Exception as e:          # e.g. min_magnitude without region: outside this tie
+            got = "err " + type(e).__name__
+            exp.append((dict(counts=counts), got)); drv.ask(f"srcsm_catalog_number_test {ilist(counts)} {nobs}"); continue
+        q = ["none" if v is None else frac(float(v)) for v in r.quantile]
+        got = f"ok {ilist(r.test_distribution)}|{int(r.observed_statistic)}|{q[0]}|{q[1]}|{r.name}|{r.status}"
+        exp.append((dict(counts=counts, nobs=nobs), got))
+        drv.ask(f"srcsm_catalog_number_test {ilist(counts)} {nobs}")
+    out = drv.run()
+    return len(exp), [(c, a[:200], b[:200]) for (c, a), b in zip(exp, out) if a.replace(" N-Test", "_N-Test") != b.replace(" N-Test", "_N-Test")]
+
+
 # ----------------------------------------------------------------------------- C04 filter
 def _hex(x):
     return x.encode("utf-8").hex()
@@ -807,6 +892,8 @@ def tie_build_bitmask_loop(rng, n):
 
 
 TIES = {
+    "catalog_number_test": tie_catalog_number_test,
+    "get_expected_rates": tie_get_expected_rates,
     "binary_test_loop": tie_binary_test_loop(False),
     "binary_test_loop_injected": tie_binary_test_loop(True),
     "poisson_test_loop": tie_poisson_test_loop(False),
